@@ -589,6 +589,11 @@ class Retrieve:
 
         # Remove the reader from _active_readers
         self._active_readers.remove(reader)
+        # Block hashes learned from the bad copy cannot be trusted. Another
+        # server may hold a good copy of the same share number: validate
+        # that one from scratch instead of against the bad copy's hashes.
+        if self._block_hash_trees is not None and shnum in self._block_hash_trees:
+            self._block_hash_trees[shnum] = hashtree.IncompleteHashTree(self._num_segments)
         for shnum in list(self.remaining_sharemap.keys()):
             self.remaining_sharemap.discard(shnum, reader.server)
 
